@@ -387,6 +387,13 @@ func (p *ProdGen) Run(n int, adminEvery int) {
 			case 5:
 				e.Restart()
 			}
+			if r.Intn(3) == 0 { // rotate a destination's token messenger (remove, register another address)
+				d := p.dstWithMessenger()
+				if _, ok := e.M.Messengers[d]; ok {
+					e.Exec(Tx{Msgs: msgs1(&ct.MsgRemoveRemoteTokenMessenger{From: e.M.Owner, DomainId: d}), Note: "messenger rotation"})
+					e.Exec(Tx{Msgs: msgs1(&ct.MsgAddRemoteTokenMessenger{From: e.M.Owner, DomainId: d, Address: Messenger(d, 1+r.Intn(3))}), Note: "messenger rotation"})
+				}
+			}
 		}
 	}
 	rc.Cov.Sample(map[string]interface{}{"producer_history_tail": e.history[max(0, len(e.history)-10):], "next_nonce": fmt.Sprint(e.M.NextNonce)})
